@@ -679,7 +679,9 @@ class Polygon(Shape2D):
         )
         # Apply translational shift relative to the center of the
         # polygonal face relative to its centroid.
-        form_factor[~zero_q] = -np.sum(
+        # The line integral runs along the vertex cycle: its sign follows the
+        # orientation of the cycle about the normal, the area integral does not.
+        form_factor[~zero_q] = -np.sign(self.signed_area) * np.sum(
             f_ns * 1j * np.exp(-1j * midpoints_dot_qs), axis=0
         )
         form_factor *= density
